@@ -337,6 +337,14 @@ def _while_idiom(ctx, fi, cfg, req, loop):
         rname = R_.id
         # definitions and in-place prepends of the remainder
         rinits = [w for w in writes_to_name(fi.node, rname) if not contains(loop, w)]
+        if len(rinits) > 1:
+            # a second pre-loop definition: e.g. the `[""] -> []` normalisation hoisted out of the loop, where it
+            # sees only the last component instead of the complete remainder
+            extra = [w for w in rinits[1:] if guard_exprs(cfg, cfg.loc1(w))]
+            if extra and len(extra) == len(rinits) - 1:
+                ctx.ob("the remainder is normalised ([\"\"] -> []) only once it is complete, on the side where a sub-site was found", False, fi, extra[0],
+                       detail="conditional re-definition of the remainder before the search loop")
+                return
         ctx.need(len(rinits) == 1, "prefix search: expected one initialisation of the remainder before the loop")
         rv = def_value(rinits[0], rname)
         ctx.need(rv[0] == "expr" and isinstance(rv[1], (ast.List, ast.Tuple)), "prefix search: remainder is not initialised with a list/tuple display")
@@ -1075,3 +1083,5 @@ R.seed("C17.g", F_R, "                filters.append(lambda link: matchexp(getat
 
 
 R.seed("C17.f", "aiocoap/resource.py", "    def get_resources_as_linkheader(self):\n        links = []\n", "    def get_resources_as_linkheader(self):\n        if getattr(self, \"_links_cache\", None) is not None:\n            return LinkFormat(list(self._links_cache))\n        links = []\n", "cached listing: changes in nested sites are not seen")
+
+R.seed("C17.b", "aiocoap/resource.py", "        remainder = [request.opt.uri_path[-1]]\n        path = request.opt.uri_path[:-1]\n", "        remainder = [request.opt.uri_path[-1]]\n        if remainder == [\"\"]:\n            remainder = []\n        path = request.opt.uri_path[:-1]\n", "trailing-slash normalisation hoisted before the loop: /a/dir/ below a sub-site at /a reaches ['dir'] instead of ['dir','']")
